@@ -399,6 +399,25 @@ fn main() {
             }
         }
     }
+    // every other top-level `const` of the unit's source files is copied too, so that a function which starts
+    // to use a (new) constant is still decided instead of failing to compile
+    {
+        let already: BTreeSet<String> = unit.copies.iter().filter(|c| c.kind == "const").map(|c| c.name.clone()).collect();
+        let mut extra: Vec<CopyItem> = vec![];
+        for fname in order.iter() {
+            for it in files[fname].ast.items.iter() {
+                if let syn::Item::Const(c) = it {
+                    let n = c.ident.to_string();
+                    if !already.contains(&n) && !extra.iter().any(|e| e.name == n) {
+                        extra.push(CopyItem { file: fname.clone(), kind: "const".into(), name: n, derive: None });
+                    }
+                }
+            }
+        }
+        for ci in extra.iter() {
+            copy_item(&files[&ci.file], ci, &unit, &mut out, &mut ctx);
+        }
+    }
     let mut used: BTreeSet<usize> = BTreeSet::new();
     let mut uncontracted: Vec<serde_json::Value> = vec![];
     for fname in order.iter() {
